@@ -58,13 +58,13 @@ def clampbox(x, a, w):
 
 
 def gen_input(rng, family, dim, periodic, nmax=40):
-    mag = rng.choice([1.0, 1.0, 1.0, 1e-3, 1e3, 2.5])
+    mag = rng.choice([1.0, 1.0, 1.0, 1e-3, 1e3, 2.5, 1e-5, 1e-9, 1e7])   # absolute scale of the box: results must not depend on it
     width = [mag * rng.choice([1.0, 1.0, rng.uniform(0.5, 2.0)]) for _ in range(3)]
     anchor = [rng.choice([0.0, 0.0, -0.5 * width[k], rng.uniform(-3, 3) * width[k]]) for k in range(3)]
     inp = {"family": family, "dim": dim, "periodic": periodic, "anchor": anchor, "width": width, "mask": None}
 
     def rnd_pt():
-        return [anchor[k] + width[k] * rng.unit() for k in range(3)]
+        return [inp["anchor"][k] + inp["width"][k] * rng.unit() for k in range(3)]
 
     n = rng.range(2, nmax)
     gens = []
@@ -121,11 +121,20 @@ def gen_input(rng, family, dim, periodic, nmax=40):
             gens.append([clampbox(c[a] + diam * width[a] * (rng.unit() - 0.5), anchor[a], width[a]) for a in range(3)])
         gens += [rnd_pt() for _ in range(rng.range(0, 6))]
     elif family == "aniso":
-        asp = rng.choice([1e2, 1e4, 1e6])
+        # strongly anisotropic and/or offset boxes.  Conditioning is kept within what "up to rounding" can
+        # quantify (DESIGN 3.4): aspect <= 1e3; offset <= 1e3 widths; in 1D/2D |coordinates| <= 1e9 because
+        # the unused axes have unit thickness (known finding K3 beyond that)
+        asp = rng.choice([1e1, 1e2, 1e3])
         ax = rng.below(3)
         width[ax] *= asp
-        off = rng.choice([0.0, 1e3, 1e6])
+        off = rng.choice([0.0, 1e1, 1e3])
         anchor = [off * width[k] for k in range(3)]
+        if dim < 3:
+            m = max(abs(anchor[k]) + width[k] for k in range(dim))
+            if m > 1e9:
+                sc = 1e9 / m
+                anchor = [x * sc for x in anchor]
+                width = [x * sc for x in width]
         inp["anchor"], inp["width"] = anchor, width
         gens = [rnd_pt() for _ in range(n)]
     else:
@@ -427,6 +436,8 @@ def known_class(inp):
             if any(g[k] == a[k] or g[k] == a[k] + w[k] for k in range(dim)):
                 cls.append("K1-wall")
                 break
+    if dim < 3 and max(max(abs(a[k]), abs(a[k] + w[k])) for k in range(dim)) >= 4e10:
+        cls.append("K3-illscaled")
     return cls
 
 
@@ -440,7 +451,13 @@ def tolerances(inp):
     u = 2.0 ** -53
     eps = [max(1e-9 * L[k], 4096 * u * M[k]) for k in range(3)]
     vol = L[0] * L[1] * L[2]
-    face_scale = max(L[0] * L[1], L[1] * L[2], L[0] * L[2])
+    # scale of the faces that are actually reported: in 2D edges of unit thickness, in 1D unit squares
+    if dim == 3:
+        face_scale = max(L[0] * L[1], L[1] * L[2], L[0] * L[2])
+    elif dim == 2:
+        face_scale = max(L[0], L[1])
+    else:
+        face_scale = 1.0
     rel = max(1e-9, max(eps[k] / L[k] for k in range(3)) * 10)
     # conditioning: a bisector between generators at distance delta is known only up to a relative
     # direction error u*M/delta; close pairs (clusters) make every derived quantity that ill-conditioned
